@@ -213,9 +213,9 @@ func genApp(r *core.RNG, a appType) appPayload {
 // an application may carry its own vendor command). On the wire it is just its bytes.
 type userCmdPayload struct{ B [3]byte }
 
-func (p userCmdPayload) MarshalBinary() ([]byte, error) { return append([]byte{}, p.B[:]...), nil }
+func (p userCmdPayload) MarshalBinary() ([]byte, error)    { return append([]byte{}, p.B[:]...), nil }
 func (p userCmdPayload) UnmarshalBinary(data []byte) error { return nil }
-func (p userCmdPayload) Size() int                        { return len(p.B) }
+func (p userCmdPayload) Size() int                         { return len(p.B) }
 
 // c18UserPayload: a Command holding a caller-defined payload encodes to CID | payload bytes and reports that size.
 func c18UserPayload(c *core.Ctx, r *core.RNG) {
